@@ -166,7 +166,8 @@ static void sbh_snapshot(KSI_TLV *base, sb_view *v) {
 	sbv_clear(v);
 	if (base == NULL || base->nested == NULL) return;
 	m = sbl_of(base->nested);
-	for (i = 0; i < SBV_MAX; i++) if (i < m->n) sbv_push(v, m->id[i], m->id[i]->tag);
+	for (i = 0; i < SBV_MAX; i++) if (i < m->n) { v->id[i] = m->id[i]; v->tag[i] = m->id[i]->tag; }      /* (concrete indices) */
+	v->n = m->n;
 }
 /* base TLV 0x800 with n <= SB_MAX_CHILDREN children (heap objects) of arbitrary tags.  The typed fields mirror the children
  * (calendarChain != NULL <=> a 0x802 child exists, ...): established by KSI_TlvTemplate_extract (C10.engine,
